@@ -35,6 +35,9 @@ def main(tier):
     for _ in range(ndup):
         ast, lines = pygen.layout(dup_module(rng))
         mods.append({"ast": ast, "lines": lines, "dup": True})
+    # small-scope exhaustion: every legal body with <= 2 (thorough: 3) statement nodes, plain and wrapped in a loop with else
+    small = pygen.modules_from_bodies(pygen.enum_function_bodies(3 if thorough else 2))
+    mods += small
     d = lib.fresh_dir("c02")
     cc.write_modules(mods, d)
     # default severity: no --min-severity flag
